@@ -375,9 +375,59 @@ def sym_int_of_str(x):
     return sign * val
 
 
+VALIDITY_ONLY_FLOAT = [False]
+
+
+def float_grammar(x):
+    """decide (forking on symbolic characters) whether CPython's float() accepts
+    the ASCII text x: [ws] [+-] digits[_digits] [. digits] [(e|E)[+-]digits] [ws],
+    or .digits forms, or inf/nan/infinity.  -> True / False"""
+    els = list(x.els)
+    ws = " \t\n\r\x0b\x0c"
+    while els and any(char_eq(els[0], w) for w in ws):
+        els.pop(0)
+    while els and any(char_eq(els[-1], w) for w in ws):
+        els.pop()
+    if els and (char_eq(els[0], "+") or char_eq(els[0], "-")):
+        els.pop(0)
+    low = lambda c, ch: char_eq(c, ch) or char_eq(c, ch.upper())
+    for word in ("infinity", "inf", "nan"):
+        if _len(els) == _len(word) and all(low(c, w) for c, w in zip(els, word)):
+            return True
+
+    def digits(i):
+        """digit run with single underscores between digits; -> (end, count)"""
+        n = 0
+        while i < _len(els) and char_is_digit(els[i]):
+            i += 1
+            n += 1
+            if i + 1 < _len(els) and char_eq(els[i], "_") and char_is_digit(els[i + 1]):
+                i += 1
+        return i, n
+    i, n1 = digits(0)
+    n2 = 0
+    if i < _len(els) and char_eq(els[i], "."):
+        i, n2 = digits(i + 1)
+    if n1 + n2 == 0:
+        return False
+    if i < _len(els) and (char_eq(els[i], "e") or char_eq(els[i], "E")):
+        i += 1
+        if i < _len(els) and (char_eq(els[i], "+") or char_eq(els[i], "-")):
+            i += 1
+        i, n3 = digits(i)
+        if n3 == 0:
+            return False
+    return i == _len(els)
+
+
 def sym_float_of_str(x):
     if type(x) is not SymStr:
         return NotImplemented
+    if VALIDITY_ONLY_FLOAT[0]:
+        # garbage jobs: only whether float() accepts the text is decided; the value is a placeholder
+        if float_grammar(x):
+            return 1.0
+        raise ValueError("could not convert string to float: %r" % _str.__str__(x))
     # digits [. digits]: an integer part with symbolic digits and a CONCRETE fraction
     els = list(x.els)
     if any(not _issym(c) and c == "." for c in els):
